@@ -1,4 +1,4 @@
-(* prelude: n *)
+(* prelude: n nat *)
 (* C11 driver: same case lines as harness/src/bin/c11.rs (hook mode; format described there).
    Output: one token per event in the harness' format, then ` | P<first loaded parent id or ->`. *)
 let rd_opt t = if ni t = 1 then Some (n_of_int (ni t)) else None
